@@ -62,6 +62,9 @@ mod bid_round;
 mod bid_sqrt_macros;
 pub mod d128;
 
+#[cfg(decmathlib_rs_verif)]
+pub mod verif_hooks;
+
 #[cfg(feature = "serde")]
 pub mod serde;
 
